@@ -12,7 +12,7 @@ from . import extract, verus, lex
 
 VERIF = os.path.abspath(os.path.join(os.path.dirname(__file__), "..", ".."))
 REPO = os.environ.get("VERIF_REPO", "/repo")
-BUILD = os.path.join(VERIF, "build")
+BUILD = os.environ.get("VERIF_BUILD_DIR", os.path.join(VERIF, "build"))
 
 
 def load_units():
@@ -120,6 +120,12 @@ def run_verus_unit(unit, tier, seed):
         if dropped:
             undecided += ["unstable obligation (fails on some seeds only): %s %s" % (f["label"], f["site"]) for f in dropped]
         failures = [f for f in failures if (f["label"], f["site"]) in stable]
+    # an unlabelled failure outside the extracted functions is a failure of one of *our* lemmas / model
+    # functions: proof-engineering debt, i.e. undecided, never a violation of the property
+    for f in failures:
+        if not f.get("label") and f.get("fn") not in fn_names:
+            undecided.append("model/lemma proof failed (not an obligation on /repo code): %s" % f["site"])
+    failures = [f for f in failures if f.get("label") or f.get("fn") in fn_names]
     res["failures"] = failures
     res["undecided"] = undecided
     # vacuity: every extracted fn's entry assert(false) must fail
@@ -170,9 +176,10 @@ def match_known(known, prop, fail):
 
 
 def write_replay(prop, fail, unit_res, extra=None):
-    os.makedirs(os.path.join(VERIF, "replays"), exist_ok=True)
+    rdir = os.environ.get("VERIF_REPLAY_DIR", os.path.join(VERIF, "replays"))
+    os.makedirs(rdir, exist_ok=True)
     h = hashlib.sha1(("%s|%s|%s" % (prop, fail.get("label"), fail.get("site"))).encode()).hexdigest()[:10]
-    p = os.path.join(VERIF, "replays", "%s-%s.json" % (prop, h))
+    p = os.path.join(rdir, "%s-%s.json" % (prop, h))
     doc = dict(property=prop, obligation=fail.get("label") or fail.get("site"), label=fail.get("label"),
                site=fail.get("site"), function=fail.get("fn"), unit=unit_res["unit"], engine=unit_res["engine"],
                verifier_message=fail.get("message"), verifier_output=fail.get("rendered"),
@@ -287,7 +294,8 @@ def main(argv=None):
 
 
 def write_evidence(prop, tier, seed, results, obligations, discharged, violations, knowns, undecided, wall, units):
-    os.makedirs(os.path.join(VERIF, "evidence"), exist_ok=True)
+    evdir = os.environ.get("VERIF_EVIDENCE_DIR", os.path.join(VERIF, "evidence"))
+    os.makedirs(evdir, exist_ok=True)
     man = json.load(open(os.path.join(VERIF, "MANIFEST.json")))
     level = "proof"
     for c in man.get("checks", []):
@@ -338,7 +346,7 @@ def write_evidence(prop, tier, seed, results, obligations, discharged, violation
     )
     ev = dict(property_id=prop, tier=tier if tier in ("quick", "thorough") else "quick", seed=seed, level=level, coverage=cov,
               assumptions=assumptions, wall_s=round(wall, 2), violations=len(violations))
-    json.dump(ev, open(os.path.join(VERIF, "evidence", prop + ".json"), "w"), indent=1)
+    json.dump(ev, open(os.path.join(evdir, prop + ".json"), "w"), indent=1)
 
 
 if __name__ == "__main__":
